@@ -155,3 +155,58 @@ Proof.
   vm_compute in G1. vm_compute in G2. inversion G1; subst m1. inversion G2; subst m2.
   vm_compute. intros H; discriminate H.
 Qed.
+
+(** ** restriction (Proofs/Restriction.v) *)
+From V Require Import Proofs.Restriction.
+
+Example ex_pi_keep_renumbering : renumbering (N.of_nat (List.length ex_reg)) ex_pi_keep.
+Proof. exact (renumbering_of_list ex_pi_keep_list eq_refl). Qed.
+
+(** the sub-registry retained from [a::c::E]: 5 entries, closed, ids = positions; the two runs
+    are [Ok]; the retained module has the items [a::b::Wrap] and [a::c::E] (not [a::Top]) *)
+Example ex_restriction_hypotheses :
+  List.length (restrict ex_pi_keep ex_keep_k ex_reg) = 5%nat /\
+  closed_reg (restrict ex_pi_keep ex_keep_k ex_reg) = true /\
+  ids_consistent (restrict ex_pi_keep ex_keep_k ex_reg) = true /\
+  skeleton_consistentb ex_reg ex_set_rec2 = true /\ docs_consistentb ex_reg ex_set_rec2 = true /\
+  derives_functionalb ex_set_rec2 = true /\
+  no_outside_rootsb (dr_recursive (s_dreg ex_set_rec2)) (dropped ex_pi_keep ex_keep_k ex_reg) = true /\
+  rmap (map fst) (generate ex_reg ex_set_rec2 (types_equal ex_reg)) =
+    Ok [["a"; "Top"]; ["a"; "b"; "Wrap"]; ["a"; "c"; "E"]] /\
+  rmap (map fst) (generate (restrict ex_pi_keep ex_keep_k ex_reg) ex_set_rec2
+                           (types_equal (restrict ex_pi_keep ex_keep_k ex_reg))) =
+    Ok [["a"; "b"; "Wrap"]; ["a"; "c"; "E"]].
+Proof. vm_compute. repeat split; reflexivity. Qed.
+
+Example ex_restriction_tokens m m' :
+  generate ex_reg ex_set_rec2 (types_equal ex_reg) = Ok m ->
+  generate (restrict ex_pi_keep ex_keep_k ex_reg) ex_set_rec2
+           (types_equal (restrict ex_pi_keep ex_keep_k ex_reg)) = Ok m' ->
+  forall p id' ir', items_get m' p = Some (id', ir') ->
+    exists id ir, items_get m p = Some (id, ir) /\
+                  type_ir_tokens ex_set_rec2 ir' = type_ir_tokens ex_set_rec2 ir.
+Proof.
+  destruct ex_restriction_hypotheses as (_ & _ & _ & H1 & H2 & H3 & H4 & _).
+  exact (restriction_tokens_b ex_pi_keep ex_keep_k ex_reg ex_set_rec2 _ _ m m'
+                              ex_pi_keep_renumbering H1 H2 H3 H4).
+Qed.
+
+Lemma restriction_hypotheses_satisfiable :
+  exists pi k r s,
+    renumbering (N.of_nat (List.length r)) pi /\
+    skeleton_consistentb r s = true /\ docs_consistentb r s = true /\ derives_functionalb s = true /\
+    no_outside_rootsb (dr_recursive (s_dreg s)) (dropped pi k r) = true /\
+    dr_recursive (s_dreg s) <> [] /\ (List.length (restrict pi k r) < List.length r)%nat /\
+    is_ok (generate r s (types_equal r)) = true /\
+    is_ok (generate (restrict pi k r) s (types_equal (restrict pi k r))) = true.
+Proof.
+  exists ex_pi_keep, ex_keep_k, ex_reg, ex_set_rec2.
+  destruct ex_restriction_hypotheses as (Hl & _ & _ & H1 & H2 & H3 & H4 & G & G').
+  split; [exact ex_pi_keep_renumbering|]. repeat (split; [assumption|]).
+  split; [discriminate|]. split; [rewrite Hl; cbn; repeat constructor|].
+  split.
+  - destruct (generate ex_reg ex_set_rec2 (types_equal ex_reg)); [reflexivity|discriminate G|discriminate G].
+  - destruct (generate (restrict ex_pi_keep ex_keep_k ex_reg) ex_set_rec2
+                       (types_equal (restrict ex_pi_keep ex_keep_k ex_reg)));
+      [reflexivity|discriminate G'|discriminate G'].
+Qed.
